@@ -137,11 +137,15 @@ func (f *freshnessCalculator) CalculateFreshness(
 
 	// Freshness lifetime (private cache: ignore s-maxage)
 	usefulLife := time.Duration(0)
+	hasMaxAge := false
 	if maxAge, ok := resCC.MaxAge(); ok && maxAge >= 0 {
 		usefulLife = maxAge // Response is fresh for max-age seconds
+		hasMaxAge = true
 	}
 
-	if usefulLife == 0 {
+	// A valid max-age (including max-age=0) takes precedence over Expires and
+	// heuristics (RFC9111 §4.2.1).
+	if !hasMaxAge {
 		expires, found, valid := entry.ExpiresHeader()
 		switch {
 		case valid && expires.After(date):
